@@ -106,7 +106,10 @@ def rand_config(rnd, kind=None):
         cfg["packver"] = [p for p in pv if set(p) <= set(alpha)] or None
         cfg["prefver"] = None
     if kind == "rot":
-        cfg.update(rot=True, alpha=rnd.choice(["ab", "abc", "abc"]), symmetry=False)
+        cfg.update(rot=rnd.choice([True, "split"]), alpha=rnd.choice(["ab", "abc", "abc"]), symmetry=False)
+        if cfg["rot"] == "split":  # cycles of one-way rules closed by a later equivalence: the union-find databases, frequent queries
+            cfg.update(alpha="abc", db=rnd.choice(["RuleDB", "RuleDB", "RuleDBForgetStrategy"]), perc=rnd.choice([100, 100, 50]),
+                       iterative=False, smallest=False)
         cfg["patterns"] = upword.rand_patterns(rnd, cfg["alpha"], 3, 2)
         cfg["params"] = [p for p in cfg["params"] if p[1] in cfg["alpha"]]
     if kind == "sep":
